@@ -52,7 +52,7 @@ def run(ctx):
                          "statement (the result identifies the branch); inputs derived from each literal (equal, ±1, "
                          "±1ulp, other type); distinct = distinct source text; non-trivial = compiled")
     ctx.extra["table_obligations"] = 1
-    progcases.run_cases(ctx, name_cases(ctx) + make_cases(ctx, n))
+    progcases.run_cases(ctx, name_cases(ctx) + make_cases(ctx, n) + gen.sweep_cases(ctx.rng, 1.0 if ctx.tier == 'thorough' else 0.2))
     progcases.run_cases(ctx, gen.membership_cases(ctx.rng, 80 if ctx.tier == 'quick' else 2000), check_model=False, want_stages=False)
 
 
